@@ -15,6 +15,7 @@ INVARIANT InitIsState
 INVARIANT MSameState
 INVARIANT MDiffers
 INVARIANT SignedWitness
+INVARIANT Homogeneous
 INVARIANT Witness
 INVARIANT Emit
 CHECK_DEADLOCK FALSE
